@@ -193,6 +193,8 @@ def sites(root):
             from pytato.array import IndexLambda
             if isinstance(v, IndexLambda) and _count_np_scalars(v.expr):
                 out.append((v, "expr:scalar-dtype-same-bytes"))
+            if isinstance(v, IndexLambda) and _count_op_sites(v.expr):
+                out.append((v, "expr:operation"))
     return out
 
 
@@ -241,6 +243,78 @@ def _map_np_scalars(expr, fn):
             return dataclasses.replace(v, **changes) if changes else v
         return v
     return rec(expr)
+
+
+_FN_SWAP = {"sin": "cos", "cos": "sin", "exp": "tanh", "tanh": "exp",
+            "sqrt": "log", "log": "sqrt", "isnan": "isnan", "real": "imag",
+            "imag": "real", "abs": "sqrt", "conj": "real"}
+_CMP_SWAP = {"<": "<=", "<=": "<", ">": ">=", ">=": ">", "==": "!=",
+             "!=": "=="}
+
+
+def _op_swapped(v):
+    """the same scalar-expression node with another OPERATION (a reduction
+    operation, a comparison operator, a math function), or None"""
+    import pymbolic.primitives as prim
+    import pytato.reductions as red
+    from pytato.scalar_expr import Reduce
+    if isinstance(v, Reduce):
+        pairs = [(red.SumReductionOperation, red.ProductReductionOperation),
+                 (red.MaxReductionOperation, red.MinReductionOperation),
+                 (red.AllReductionOperation, red.AnyReductionOperation)]
+        for a, b in pairs:
+            if type(v.op) is a:
+                return Reduce(v.inner_expr, b(), v.bounds)
+            if type(v.op) is b:
+                return Reduce(v.inner_expr, a(), v.bounds)
+        return None
+    if isinstance(v, prim.Comparison) and v.operator in _CMP_SWAP:
+        return prim.Comparison(v.left, _CMP_SWAP[v.operator], v.right)
+    if isinstance(v, prim.Call) and isinstance(v.function, prim.Variable):
+        mod, _, fn = v.function.name.rpartition(".")
+        if fn in _FN_SWAP and _FN_SWAP[fn] != fn:
+            return prim.Call(prim.Variable(f"{mod}.{_FN_SWAP[fn]}"
+                                           if mod else _FN_SWAP[fn]),
+                             v.parameters)
+    return None
+
+
+def _map_expr_nodes(expr, fn):
+    """copy of a (dataclass based) expression; fn(node) -> replacement or None
+    is offered every dataclass node, outermost first, in a fixed order"""
+    import dataclasses
+    from collections.abc import Mapping
+
+    def rec(v):
+        if isinstance(v, tuple):
+            new = tuple(rec(x) for x in v)
+            return new if any(a is not b for a, b in zip(new, v)) else v
+        if isinstance(v, Mapping):
+            return v
+        if dataclasses.is_dataclass(v) and not isinstance(v, type):
+            r = fn(v)
+            if r is not None:
+                return r
+            changes = {}
+            for f in dataclasses.fields(v):
+                old = getattr(v, f.name)
+                new = rec(old)
+                if new is not old:
+                    changes[f.name] = new
+            return dataclasses.replace(v, **changes) if changes else v
+        return v
+    return rec(expr)
+
+
+def _count_op_sites(expr):
+    n = [0]
+
+    def fn(v):
+        if _op_swapped(v) is not None:
+            n[0] += 1
+        return None
+    _map_expr_nodes(expr, fn)
+    return n[0]
 
 
 def _count_np_scalars(expr):
@@ -448,6 +522,19 @@ def new_value(node, fname, cur, rng, counter):
 def mutate_site(root, node, fname, rng, counter):
     """-> new root with exactly that field of that node changed"""
     import pytato as pt
+    if fname == "expr:operation":
+        k = rng.randrange(_count_op_sites(node.expr))
+        i = [0]
+
+        def fn_op(v):
+            r = _op_swapped(v)
+            if r is None:
+                return None
+            j = i[0]
+            i[0] += 1
+            return r if j == k else None
+        return rebuild(root, node, changes={"expr": _map_expr_nodes(
+            node.expr, fn_op)})
     if fname == "expr:scalar-dtype-same-bytes":
         k = rng.randrange(_count_np_scalars(node.expr))
         i = [0]
